@@ -85,16 +85,19 @@ impl H {
         if let Some(k) = bkey {
             inject("PrivateKey", k);
         }
+        let consumed = o;
         let r = guard(move || v.into_proof());
         let d = draws();
         match r {
             Ok(p) => {
                 self.tr.ev(json!({"ev": "IntoProof", "o": o, "o2": o2,
                     "res": {"kind": "ok", "B": b(p.server_public_key()), "salt": b(p.salt())}, "draws": d}));
+                self.drop_event(consumed);
                 Some((o2, p))
             }
             Err(m) => {
                 self.tr.ev(json!({"ev": "IntoProof", "o": o, "o2": o2, "res": panic_res(&m), "draws": d}));
+                self.drop_event(consumed);
                 None
             }
         }
@@ -158,6 +161,7 @@ impl H {
         let o2 = self.oid();
         clear_hooks();
         let ab = *a.as_le_bytes();
+        let consumed = o;
         let r = guard(move || p.into_server(a, m1));
         let d = draws();
         let mut e = json!({"ev": "IntoServer", "o": o, "o2": o2, "A": b(&ab), "M1": b(&m1), "hon": self.honest, "draws": d});
@@ -165,16 +169,19 @@ impl H {
             Ok(Ok((s, m2))) => {
                 e["res"] = json!({"kind": "ok", "M2": b(&m2), "K": b(s.session_key()), "chal": b(s.reconnect_challenge_data())});
                 self.tr.ev(e);
+                self.drop_event(consumed);
                 Some((o2, s, m2))
             }
             Ok(Err(err)) => {
                 e["res"] = json!({"kind": "err", "client": b(&err.client_proof), "server": b(&err.server_proof)});
                 self.tr.ev(e);
+                self.drop_event(consumed);
                 None
             }
             Err(m) => {
                 e["res"] = panic_res(&m);
                 self.tr.ev(e);
+                self.drop_event(consumed);
                 None
             }
         }
@@ -183,6 +190,7 @@ impl H {
     pub fn verify_server_proof(&mut self, o: u64, c: SrpClientChallenge, m2: [u8; 20]) -> Option<(u64, SrpClient)> {
         let o2 = self.oid();
         clear_hooks();
+        let consumed = o;
         let r = guard(move || c.verify_server_proof(m2));
         let d = draws();
         let mut e = json!({"ev": "VerifyServerProof", "o": o, "o2": o2, "M2": b(&m2), "hon": self.honest, "draws": d});
@@ -190,16 +198,19 @@ impl H {
             Ok(Ok(cl)) => {
                 e["res"] = json!({"kind": "ok", "K": b(cl.session_key())});
                 self.tr.ev(e);
+                self.drop_event(consumed);
                 Some((o2, cl))
             }
             Ok(Err(err)) => {
                 e["res"] = json!({"kind": "err", "client": b(&err.client_proof), "server": b(&err.server_proof)});
                 self.tr.ev(e);
+                self.drop_event(consumed);
                 None
             }
             Err(m) => {
                 e["res"] = panic_res(&m);
                 self.tr.ev(e);
+                self.drop_event(consumed);
                 None
             }
         }
@@ -252,6 +263,10 @@ impl H {
         let o2 = self.oid();
         self.tr.ev(json!({"ev": "Clone", "o": o, "o2": o2, "res": {"kind": "ok"}, "draws": []}));
         o2
+    }
+
+    pub fn drop_event(&mut self, o: u64) {
+        self.tr.ev(json!({"ev": "Drop", "o": o}));
     }
 
     pub fn agree(&mut self, so: u64, co: u64, sk: &[u8; 40], ck: &[u8; 40]) {
